@@ -85,9 +85,14 @@ def build(job, workdir, extra_defines=()):
           '-DYV_CBMC=1'] + ['-D' + d for d in list(job.defines) + list(extra_defines)] + \
          ['unit.c', '-o', 'a.gb']
     rc, out, err, dt = run(cc, workdir, 120, log)
+    for attempt in range(2):
+        # killed by a signal / no diagnostic at all: resource pressure on a loaded machine, not a property of the text
+        if rc != 0 and not (err or out).strip():
+            time.sleep(2 + 3 * attempt)
+            rc, out, err, dt = run(cc, workdir, 120, log)
     cmds.append(' '.join(cc))
     if rc != 0:
-        return False, 'goto-cc failed: ' + (err or out)[-600:], cmds, None
+        return False, 'goto-cc failed (rc=%s): ' % rc + (err or out)[-600:], cmds, None
     binary = 'a.gb'
     if job.enforce or job.replace or job.loop_contracts:
         gi = ['goto-instrument', '--dfcc', job.entry]
